@@ -91,7 +91,7 @@ func runManualSwitch(sc *RetryScenario) *RetryResult {
 	rc.Disconnect(dctx)
 	dcancel()
 	cfg := map[string]interface{}{"deliverOnRel": false, "alwaysResub": false, "respTimeout": false, "autoRelease": true, "directQoS0": false, "mode": "manual",
-		"reconnBaseUs": 0, "reconnMaxUs": 0, "noReestablish": true, "hammer": false, "maxPayload": 0}
+		"reconnBaseUs": 0, "reconnMaxUs": 0, "noReestablish": true, "hammer": false, "maxPayload": 0, "cleanSession": false}
 	return &RetryResult{ID: sc.ID, Cfg: cfg, Evs: rec.Snapshot(), Info: info}
 }
 
